@@ -69,6 +69,35 @@ static std::vector<KnownPredicate> load_known(const std::string& file) {
   return r;
 }
 
+
+// oracles that need a second execution of the plan (used by workers, replay and shrink alike)
+static void post_oracles(const Plan& p, const ExecOpts& eo, RunResult& r) {
+  if (p.cfgi("ntasks", 1) > 1 && eo.props.count("C18") + eo.props.count("C17") > 0 && !eo.tsan) {
+      // result comparison: every object must observe exactly what it observes when the tasks run one after the other
+      Plan ps = p; ps.cfg["serial"] = "1";
+      Executor exs(ps, eo); RunResult rs = exs.run();
+      for (auto& od : r.obj_digest) {
+        auto it = rs.obj_digest.find(od.first);
+        if (it == rs.obj_digest.end() || it->second != od.second) {
+          Violation v; bool pair = od.first.compare(0, 1, "C") == 0 || (p.cfgs("copysrc") == od.first);
+          v.prop = eo.want("C18") ? "C18" : "C17"; v.oracle = pair ? "copy_or_source_differs_from_solo" : "task_result_differs_from_solo";
+          v.detail = "object " + od.first + " observed different results when its task was interleaved with others than when the tasks ran one after the other";
+          v.ctx["object"] = od.first.substr(0, 1);
+          bool dup = false; for (auto& x : r.viol) if (x.prop == v.prop && x.oracle == v.oracle) dup = true;
+          if (!dup) r.viol.push_back(v);
+        }
+      }
+      if (p.cfgi("twins", 0) && eo.want("C17")) {
+        auto a = r.obj_digest.find("T0#dead") != r.obj_digest.end() ? r.obj_digest.find("T0#dead") : r.obj_digest.find("T0");
+        auto b = r.obj_digest.find("T1#dead") != r.obj_digest.end() ? r.obj_digest.find("T1#dead") : r.obj_digest.find("T1");
+        if (a != r.obj_digest.end() && b != r.obj_digest.end() && a->second != b->second) {
+          Violation v; v.prop = "C17"; v.oracle = "twins_differ"; v.detail = "two solver objects given the same LP, parameters, seed and call sequence observed different results"; r.viol.push_back(v);
+        }
+      }
+    }
+}
+static RunResult run_plan(const Plan& p, const ExecOpts& eo) { Executor ex(p, eo); RunResult r = ex.run(); post_oracles(p, eo, r); return r; }
+
 static double now_s() { return std::chrono::duration<double>(std::chrono::steady_clock::now().time_since_epoch()).count(); }
 
 static std::string read_file(const std::string& f) { std::ifstream in(f, std::ios::binary); std::stringstream ss; ss << in.rdbuf(); return ss.str(); }
@@ -82,7 +111,7 @@ static int run_forked(const Plan& p, const ExecOpts& eo, std::vector<std::string
   if (pid == 0) {
     close(fd[0]);
     alarm(timeout_s);
-    Executor ex(p, eo); RunResult r = ex.run();
+    RunResult r = run_plan(p, eo);
     std::string out; for (auto& v : r.viol) out += v.key() + "\n";
     ssize_t w = write(fd[1], out.data(), out.size()); (void)w;
     _exit(0);
@@ -140,7 +169,7 @@ static Plan shrink(Plan p, const ExecOpts& eo, const std::string& key, int* reru
 
 int main(int argc, char** argv) {
   std::string engine = "stop", prop, replay, shrinkf, out, knownf, scratch = "/tmp", tier = "quick", oracle_key, dumpseed;
-  uint64_t seed0 = 1; long start = 0, stride = 1, count = 100; double deadline = 1e18; bool sacrificial = false, verbose = false;
+  uint64_t rawseed = 0; uint64_t seed0 = 1; long start = 0, stride = 1, count = 100; double deadline = 1e18; bool sacrificial = false, verbose = false;
   for (int i = 1; i < argc; i++) {
     std::string a = argv[i]; auto nxt = [&]() { return std::string(i + 1 < argc ? argv[++i] : ""); };
     if (a == "--engine") engine = nxt(); else if (a == "--prop") prop = nxt(); else if (a == "--replay") replay = nxt();
@@ -150,6 +179,7 @@ int main(int argc, char** argv) {
     else if (a == "--stride") stride = atol(nxt().c_str()); else if (a == "--count") count = atol(nxt().c_str());
     else if (a == "--deadline") deadline = atof(nxt().c_str()); else if (a == "--sacrificial") sacrificial = true; else if (a == "--verbose") verbose = true;
     else if (a == "--dump") dumpseed = nxt();
+    else if (a == "--rawseed") rawseed = strtoull(nxt().c_str(), nullptr, 10);
   }
   install_hooks();
   { std::string cmd = "mkdir -p '" + scratch + "'"; int rc = system(cmd.c_str()); (void)rc; }
@@ -166,7 +196,7 @@ int main(int argc, char** argv) {
   if (!replay.empty()) {
     Plan p; std::string err;
     if (!Plan::parse(read_file(replay), p, &err)) { fprintf(stderr, "cannot parse %s: %s\n", replay.c_str(), err.c_str()); return 2; }
-    Executor ex(p, eo); RunResult r = ex.run();
+    RunResult r = run_plan(p, eo);
     printf("REPLAY digest=%016llx events=%llu ops=%d\n", (unsigned long long)r.digest, (unsigned long long)r.nevents, r.ops_done);
     for (auto& v : r.viol) printf("V %s\n", viol_json(v, p.seed, true).c_str());
     for (auto& c : r.counters) if (verbose) printf("C %s=%ld\n", c.first.c_str(), c.second);
@@ -192,36 +222,14 @@ int main(int argc, char** argv) {
   double t0 = now_s();
   for (long n = 0; n < count; n++) {
     if (now_s() - t0 > deadline) break;
-    uint64_t seed = mix(seed0, (uint64_t)(start + n * stride));
+    uint64_t seed = rawseed ? rawseed : mix(seed0, (uint64_t)(start + n * stride));
     printf("B %llu %ld\n", (unsigned long long)seed, start + n * stride); fflush(stdout);
     Plan p = generate_plan(engine, seed, go);
     Executor ex(p, eo); RunResult r = ex.run();
-    if (p.cfgi("ntasks", 1) > 1 && eo.props.count("C18") + eo.props.count("C17") > 0 && !eo.tsan) {
-      // result comparison: every object must observe exactly what it observes when the tasks run one after the other
-      Plan ps = p; ps.cfg["serial"] = "1";
-      Executor exs(ps, eo); RunResult rs = exs.run();
-      for (auto& od : r.obj_digest) {
-        auto it = rs.obj_digest.find(od.first);
-        if (it == rs.obj_digest.end() || it->second != od.second) {
-          Violation v; bool pair = od.first.compare(0, 1, "C") == 0 || (p.cfgs("copysrc") == od.first);
-          v.prop = eo.want("C18") ? "C18" : "C17"; v.oracle = pair ? "copy_or_source_differs_from_solo" : "task_result_differs_from_solo";
-          v.detail = "object " + od.first + " observed different results when its task was interleaved with others than when the tasks ran one after the other";
-          v.ctx["object"] = od.first.substr(0, 1);
-          bool dup = false; for (auto& x : r.viol) if (x.prop == v.prop && x.oracle == v.oracle) dup = true;
-          if (!dup) r.viol.push_back(v);
-        }
-      }
-      if (p.cfgi("twins", 0) && eo.want("C17")) {
-        auto a = r.obj_digest.find("T0#dead") != r.obj_digest.end() ? r.obj_digest.find("T0#dead") : r.obj_digest.find("T0");
-        auto b = r.obj_digest.find("T1#dead") != r.obj_digest.end() ? r.obj_digest.find("T1#dead") : r.obj_digest.find("T1");
-        if (a != r.obj_digest.end() && b != r.obj_digest.end() && a->second != b->second) {
-          Violation v; v.prop = "C17"; v.oracle = "twins_differ"; v.detail = "two solver objects given the same LP, parameters, seed and call sequence observed different results"; r.viol.push_back(v);
-        }
-      }
-    }
+    post_oracles(p, eo, r);
     if (!r.viol.empty()) {
       // determinism gate: same plan again in this process must give the same digest and the same violations
-      Executor ex2(p, eo); RunResult r2 = ex2.run();
+      RunResult r2 = run_plan(p, eo);
       bool same = r2.digest == r.digest && r2.viol.size() == r.viol.size();
       std::string pf = scratch + "/viol-" + std::to_string(seed) + ".plan";
       Plan pr = p; if (!r.sched_trace.empty()) pr.sched = r.sched_trace;
